@@ -47,7 +47,7 @@ def r1_owner(prog, rep: Report, fam: Family, include_mixins: bool):
         if not mine:
             rep.ok("C18.R1", f, "owner", f"every handle access owned ({len(classes)} concrete classes)")
         for (ff, site, op), b in mine:
-            rep.viol("C18.R1", f, f"owner:{site}:{op}",
+            rep.viol("C18.R1", (b["file"], f.short, b["line"]), f"owner:{site}:{op}",
                      f"{op} at {b['file']}:{b['line']} ({site}) reached without the re-open helper via "
                      f"{' -> '.join(b['chain'])}; classes: {', '.join(sorted(set(b['classes'])))}",
                      witness={"chain": b["chain"], "classes": sorted(set(b["classes"]))},
